@@ -755,8 +755,8 @@ def oracle_single(ctx, case, obs):
 
 def describe(case):
     if case.get('kind') == 'two':
-        return 'two writers, registries %s / %s, previous target %s, schedule %s' % (
-            case['regs'][0], case['regs'][1], 'absent' if case['old'] is None else '%d bytes' % (len(case['old']) // 2), case['schedule'])
+        return '%d writers, registries %s, previous target %s, schedule %s' % (
+            len(case['regs']), ' / '.join(str(r) for r in case['regs']), 'absent' if case['old'] is None else '%d bytes' % (len(case['old']) // 2), case['schedule'])
     f = case.get('fault')
     return 'registry of %d collectors %s, previous target %s, write %s, %s%s' % (
         len(case['reg']), case['reg'], 'absent' if case['old'] is None else '%d bytes' % (len(case['old']) // 2),
@@ -849,8 +849,8 @@ def compare_single(ctx, case, obs, reply):
 class Sched:
     """hands the processor to one writer at a time; writers park before every wrapped step"""
 
-    def __init__(self):
-        self.sems = {1: threading.Semaphore(0), 2: threading.Semaphore(0)}
+    def __init__(self, n=2):
+        self.sems = {w: threading.Semaphore(0) for w in range(1, n + 1)}
         self.back = threading.Semaphore(0)
 
     def yield_point(self, who):
@@ -871,10 +871,12 @@ def run_two(case):
             news.append(n); partss.append(p)
         for sp in specs:
             regs.append(build_registry(env, sp)[0])
-        faults = case.get('faults') or [None, None]
-        sched = Sched()
-        results = {1: None, 2: None}
-        done = {1: False, 2: False}
+        nw = len(specs)                      # any number of writer threads (2 in the quick tier, 3 as well in thorough)
+        who_all = list(range(1, nw + 1))
+        faults = case.get('faults') or [None] * nw
+        sched = Sched(nw)
+        results = {w: None for w in who_all}
+        done = {w: False for w in who_all}
         runs = {}
         initial_listing = env.listing()
 
@@ -895,7 +897,7 @@ def run_two(case):
         with Patched(env):
             env.sched = sched
             threads = {}
-            for who in (1, 2):
+            for who in who_all:
                 t = threading.Thread(target=body, args=(who,), daemon=True)
                 threads[who] = t
                 t.start()
@@ -903,7 +905,7 @@ def run_two(case):
                     raise lib.Infra('writer thread did not reach its first step')
             executed = []
             pending = list(case['schedule'])
-            while not (done[1] and done[2]):
+            while not all(done.values()):
                 who = None
                 while pending:
                     w = int(pending.pop(0))
@@ -911,7 +913,7 @@ def run_two(case):
                         who = w
                         break
                 if who is None:
-                    who = 1 if not done[1] else 2
+                    who = next(w for w in who_all if not done[w])
                 executed.append(who)
                 sched.sems[who].release()
                 if not sched.back.acquire(timeout=30):
@@ -919,7 +921,7 @@ def run_two(case):
             for t in threads.values():
                 t.join(timeout=10)
             env.sched = None
-        tmpnames = {w: real_os.path.basename(runs[w].tmp_expected) for w in (1, 2)}
+        tmpnames = {w: real_os.path.basename(runs[w].tmp_expected) for w in who_all}
         for rec in env.log:
             rec['tmp1'] = tmpnames[1] in rec['listing']
             rec['tmp2'] = tmpnames[2] in rec['listing']
@@ -927,13 +929,14 @@ def run_two(case):
                 'final_target': env.read(env.target), 'final_listing': env.listing(), 'initial_listing': initial_listing,
                 'final_fs': {n: env.read(real_os.path.join(env.dir, n)) for n in env.listing()}, 'others': env.others,
                 'target': env.target, 'tmpnames': tmpnames, 'executed': ''.join(map(str, executed)),
-                'same_tmp': tmpnames[1] == tmpnames[2]}
+                'same_tmp': len(set(tmpnames.values())) < nw}
     finally:
         env.close()
 
 
 def oracle_two(ctx, case, obs):
-    old, (n1, n2) = obs['old'], obs['news']
+    old, news = obs['old'], obs['news']
+    who_all = list(range(1, len(news) + 1))
     fails = 0
 
     def fail(sig, what):
@@ -943,13 +946,13 @@ def oracle_two(ctx, case, obs):
 
     for i, st in enumerate(obs['log']):
         t = st['target']
-        if t != old and t != n1 and t != n2:
+        if t != old and t not in news:
             fail('C18:two-writers-partial', 'after step %d (writer %d: %s %s) a reader of the target sees %s — not the previous content and not '
-                 'one of the two complete expositions (%s / %s)' % (i, st['who'], st['kind'], st['path'], show(t), show(n1), show(n2)))
+                 'one of the %d complete expositions (%s)' % (i, st['who'], st['kind'], st['path'], show(t), len(news), ' / '.join(show(n) for n in news)))
             break
-    faults = case.get('faults') or [None, None]
+    faults = case.get('faults') or [None] * len(news)
     base = real_os.path.basename(obs['target'])
-    for w in (1, 2):
+    for w in who_all:
         r, f = obs['results'][w], faults[w - 1]
         if f is None and r is not None:
             fail('C18:two-writers-raise', 'writer %d raised %r although no fault was injected' % (w, r))
@@ -958,9 +961,9 @@ def oracle_two(ctx, case, obs):
     extra = [n for n in obs['final_listing'] if n not in obs['initial_listing'] and n != base]
     if extra and all(f is None or f['cls'] in EXC_CLASSES for f in faults):
         fail('C18:tmp-left', 'both calls are over and %s is left behind' % extra)
-    ok_final = [n for n, f in zip((n1, n2), faults) if f is None]
+    ok_final = [n for n, f in zip(news, faults) if f is None]
     ft = obs['final_target']
-    if ok_final and ft not in ok_final and not any(obs['results'][w] is not None and faults[w - 1] is None for w in (1, 2)):
+    if ok_final and ft not in ok_final and not any(obs['results'][w] is not None and faults[w - 1] is None for w in who_all):
         fail('C18:two-writers-final', 'both calls are over and the target holds %s, not one of the installed expositions' % show(ft))
     if not ok_final and ft != old:
         fail('C18:target-changed-on-failure', 'both calls raised but the target changed to %s' % show(ft))
@@ -1354,6 +1357,23 @@ def two_cases(ctx, wide):
 
 
 # ------------------------------------------------------------------------------------------------ entry points
+def three_cases(ctx, n=400):
+    """three writer threads of one process on one target, random schedules; every third case has one faulted writer"""
+    rng = ctx.rng
+    old = OLDS[1].hex()
+    for j in range(n):
+        regs = [[[rng.randrange(1, 5), rng.randrange(0, 4)] for _ in range(rng.randrange(0, 3))] for _ in range(3)]
+        lens = [len(r) + 5 for r in regs]
+        sch = [str(w + 1) for w in range(3) for _ in range(lens[w])]
+        rng.shuffle(sch)
+        faults = [None, None, None]
+        if j % 3 == 2:
+            w = rng.randrange(3)
+            faults[w] = {'pos': rng.randrange(lens[w]), 'cls': rng.choice(EXC_CLASSES), 'ident': 7000 + j, 'part': 0}
+            sch += ['1', '2', '3'] * 3
+        yield {'kind': 'two', 'regs': regs, 'old': rng.choice([None, old]), 'schedule': ''.join(sch), 'faults': faults}
+
+
 def eval_cases(ctx, cases, deadline=None):
     reqs, pend = [], []
     extras = []
@@ -1401,6 +1421,10 @@ def eval_cases(ctx, cases, deadline=None):
             ctx.case(('two', str(case['regs']), case['old'], obs['executed'], str(case.get('faults'))),
                      {'scenario': describe(case), 'executed': obs['executed'],
                       'trace': [(s['who'], s['kind'], s['path']) for s in obs['log']]} if case['schedule'].startswith('1212112') else None)
+            if len(case['regs']) != 2:
+                # three and more writers: the oracle on the real code only (the model side is the theorem writers_never_partial)
+                ctx.count('%d-writers' % len(case['regs']) + ('' if not any(case.get('faults') or []) else ':one-faulted'))
+                continue
             ctx.count('two-writers' + ('' if not any(case.get('faults') or []) else ':one-faulted'))
             reqs.append(request_two(case, obs))
         pend.append((case, obs))
@@ -1442,6 +1466,8 @@ def run(ctx):
     ctx.extra['phase_s'] = {'extract+lake build+axiom audit (includes waiting for the shared build lock)': round(t_start - ctx.t0, 1)}
     eval_cases(ctx, single_cases(ctx, regs, wide and not quick), time.time() + (15 if ctx.broken else 20) if quick else None)
     eval_cases(ctx, two_cases(ctx, wide), time.time() + (10 if ctx.broken else 20) if quick else None)
+    if not quick:
+        eval_cases(ctx, three_cases(ctx))
     ctx.extra['two_writer_interleavings_of_two_6_step_calls_run'] = '%d of 924' % min(924, ctx.dist.get('two-writers', 0))
     ctx.extra['exhaustive_parts'] = ('unless `cases-not-run-for-lack-of-time` appears in the distribution: ''all fault positions of every listed single-call scenario; all 924 interleavings of two 6-step calls '
                                      '(the space of registries and contents itself is unbounded and is covered by the theorems, not enumerated)')
